@@ -487,6 +487,31 @@ P("seed-C19-8", ["C19"], "seeded/C19-8/patch.diff")
 P("seed-C20-7", ["C20"], "seeded/C20-7/patch.diff")
 P("seed-C20-8", ["C20"], "seeded/C20-8/patch.diff")
 
+
+# ------------------------------------------------------------------ round-6 seeds (those the property's own check reports)
+P("seed-C01-10", ["C01"], "seeded/C01-10/patch.diff")
+P("seed-C02-10", ["C02"], "seeded/C02-10/patch.diff")
+P("seed-C03-9", ["C03"], "seeded/C03-9/patch.diff")
+P("seed-C03-10", ["C03"], "seeded/C03-10/patch.diff")
+P("seed-C04-9", ["C04"], "seeded/C04-9/patch.diff")
+P("seed-C04-10", ["C04"], "seeded/C04-10/patch.diff")
+P("seed-C09-9", ["C09"], "seeded/C09-9/patch.diff")
+P("seed-C09-10", ["C09"], "seeded/C09-10/patch.diff")
+P("seed-C10-9", ["C10"], "seeded/C10-9/patch.diff")
+P("seed-C10-10", ["C10"], "seeded/C10-10/patch.diff")
+P("seed-C11-9", ["C11"], "seeded/C11-9/patch.diff")
+P("seed-C11-10", ["C11"], "seeded/C11-10/patch.diff")
+P("seed-C12-9", ["C12"], "seeded/C12-9/patch.diff")
+P("seed-C12-10", ["C12"], "seeded/C12-10/patch.diff")
+P("seed-C14-9", ["C14"], "seeded/C14-9/patch.diff")
+P("seed-C14-10", ["C14"], "seeded/C14-10/patch.diff")
+P("seed-C16-9", ["C16"], "seeded/C16-9/patch.diff")
+P("seed-C16-10", ["C16"], "seeded/C16-10/patch.diff")
+P("seed-C17-9", ["C17"], "seeded/C17-9/patch.diff")
+P("seed-C17-10", ["C17"], "seeded/C17-10/patch.diff")
+P("seed-C19-9", ["C19"], "seeded/C19-9/patch.diff")
+P("seed-C19-10", ["C19"], "seeded/C19-10/patch.diff")
+
 # ------------------------------------------------------------------ backward party scan (R-C17-4 / R-C02-5 / R-C01-10)
 _PL = ('                plaintiff = "".join(\n                    str(w) for w in words[max(index - 2, 0) : index]\n                ).lstrip("( ")\n'
        '                citation.metadata.plaintiff = plaintiff.rstrip("( ")\n                # the full span starts where the plaintiff starts\n'
@@ -522,8 +547,10 @@ import os as _os
 
 _SKIP = {"r2-annotate-4", "r2-find-1", "r2-helpers-3", "r2-resolve-2", "r2-tokenizers-4"}
 # round 5 (r3 = maintenance commits, r4 = code motion): still reported, see benign/KNOWN-LIMITS.md
-_SKIP |= {"r4-annotate-2", "r4-annotate-3", "r4-annotate-4", "r4-find-1", "r4-find-2", "r4-find-3", "r4-find-4", "r4-helpers-3", "r4-resolve-2", "r4-resolve-4",
+_SKIP |= {"r4-annotate-2", "r4-annotate-3", "r4-annotate-4", "r4-find-2", "r4-find-4", "r4-helpers-3", "r4-resolve-4",
           "r4-tokenizers-2", "r4-tokenizers-3"}
+# round 6 (r5 = behaviour-changing but property-preserving feature / fix commits): still reported
+_SKIP |= {"r5-annotate-3", "r5-tokenizers-1", "r5-tokenizers-2", "r5-tokenizers-3"}
 for _f in sorted(_glob.glob(_os.path.join(_os.path.dirname(_os.path.dirname(__file__)), "benign", "*.diff"))):
     _n = _os.path.basename(_f)[:-5]
     if _n not in _SKIP:
